@@ -141,6 +141,24 @@ class Ctx:
         return 1 if self.violations else 0
 
 
+def raised_in_code_under_test(tb_text):
+    """'module.function' if the innermost frames of the traceback are inside the library under test (vopy) or in third-party code it
+    called, with no harness frame after them; None otherwise."""
+    import re
+    tb_text = tb_text.split("The above exception was the direct cause")[0]          # the root cause (a pool worker's remote traceback comes first)
+    frames = re.findall(r'File "([^"]+)", line \d+, in (\S+)', tb_text)
+    last_lib = last_harness = -1
+    for k, (f, fn) in enumerate(frames):
+        if "/vopy/" in f and "/verif/" not in f:
+            last_lib = k
+        elif "/verif/harness/" in f:
+            last_harness = k
+    if last_lib > last_harness >= 0:
+        f, fn = frames[last_lib]
+        return "%s.%s" % (os.path.basename(f)[:-3], fn)
+    return None
+
+
 def main_for(run_fn, replay_fn, pid, argv):
     """Common CLI: check <ID> [quick|thorough] [--replay PATH]"""
     tier = os.environ.get("VERIF_TIER", "quick")
@@ -173,10 +191,16 @@ def main_for(run_fn, replay_fn, pid, argv):
         print("MACHINERY-ERROR property=%s %s" % (pid, e))
         traceback.print_exc()
         return 2
-    except Exception as e:  # harness bug: never a violation
-        print("MACHINERY-ERROR property=%s unexpected %r" % (pid, e))
-        traceback.print_exc()
-        return 2
+    except Exception as e:
+        tb = "".join(traceback.format_exception(type(e), e, e.__traceback__))      # includes the remote traceback of pool workers
+        where = raised_in_code_under_test(tb)
+        if where is None:       # harness bug: never a violation
+            print("MACHINERY-ERROR property=%s unexpected %r" % (pid, e))
+            traceback.print_exc()
+            return 2
+        # the library itself raised on an input for which the specification has an answer: that is the code's behaviour, not ours
+        ctx.violation("exception-in-library|%s|%s" % (where, type(e).__name__), {"kind": "exception-in-library", "where": where, "error": repr(e)[:300],
+                      "traceback": tb[-3000:]}, "the library raised %r in %s while the check was exercising it (an input the specification answers)" % (e, where))
     rc = ctx.finish()
     print("%s %s: states=%d transitions=%d impl_cases=%d nontrivial=%d violations=%d known=%d wall=%.1fs" % (
         pid, tier, ctx.states, ctx.transitions, ctx.traces, len(ctx.nontrivial), len(ctx.violations),
